@@ -190,6 +190,17 @@ func (e *Engine) callStatic(st *State, fn *ssa.Function, args []Val, bindings []
 	}
 	ct := e.contractOf(fn)
 	isTop := len(st.Frames) > 0 && st.Frames[0].Fn == fn
+	if e.Opts.TokenModel && !isTop && (fn.Name() == "Encode" || fn.Name() == "Decode") && fn.Signature.Recv() != nil && len(st.Frames) > 0 {
+		// (not inside the type's own lemma function: there the real methods are examined, inlined or through their own contracts)
+		if cd, T := e.codecOf(fn); cd != nil && !(st.Frames[0].Contract != nil && st.Frames[0].Contract.Inlines[FuncKey(fn)]) && st.Frames[0].Fn.Name() != cd.By {
+			if fn.Name() == "Encode" {
+				e.tokSummaryEncode(st, cd, T, fn, args, pos, k)
+			} else {
+				e.tokSummaryDecode(st, cd, T, fn, args, pos, k)
+			}
+			return
+		}
+	}
 	forceInline := len(st.Frames) > 0 && st.Frames[0].Contract != nil && st.Frames[0].Contract.Inlines[FuncKey(fn)] && !isTop
 	if ct != nil && !forceInline && (!ct.Inline || isTop) && !(e.cur != nil && e.cur.Fn == fn && len(st.Frames) == 0) {
 		e.modularCall(st, fn, ct, args, pos, k)
